@@ -169,20 +169,21 @@ class CondGen:
             return (kind, name, self.obj_term(), self.obj_term())
         return ('cmp', rng.choice(CMP_OPS), self.int_term(), self.lit_int())
 
-    def cond(self, depth):
+    def cond(self, depth, under_not=False):
         rng, cfg = self.rng, self.cfg
         if depth <= 0 or rng.random() < 0.3:
             return self.atom()
         r = rng.random()
         if r < 0.35:
             n = 2 if rng.random() < 0.75 else 3
-            return ('and',) + tuple(self.cond(depth - 1) for _ in range(n))
+            return ('and',) + tuple(self.cond(depth - 1, under_not) for _ in range(n))
         if r < 0.7:
             n = 2 if rng.random() < 0.75 else 3
-            return ('or',) + tuple(self.cond(depth - 1) for _ in range(n))
+            return ('or',) + tuple(self.cond(depth - 1, under_not) for _ in range(n))
         if r < 0.9 and cfg.negation:
-            return ('not', self.cond(depth - 1))
-        if cfg.subqueries and rng.random() < cfg.subqueries:
+            return ('not', self.cond(depth - 1, True))
+        if cfg.subqueries and not under_not and rng.random() < cfg.subqueries:
+            # (negating a quantified sub-query raises NotImplementedError in the library: never generated)
             return ('sub', (self.var(),), self.cond(depth - 1))
         return self.atom()
 
